@@ -6,7 +6,11 @@ src, name, det, notes = sys.argv[1], sys.argv[2], sys.argv[3], sys.argv[4]
 dst = os.path.join('/verif/seeded', name)
 os.makedirs(dst, exist_ok=True)
 for f in os.listdir(os.path.join(src, 'SEED')):
-    shutil.copy(os.path.join(src, 'SEED', f), dst)
+    path = os.path.join(src, 'SEED', f)
+    if os.path.isdir(path):
+        shutil.copytree(path, os.path.join(dst, f), dirs_exist_ok=True)
+    else:
+        shutil.copy(path, dst)
 m = json.load(open(os.path.join(dst, 'meta.json')))
 m['confirmed_by_me'] = {
     'how': 'tools/seedcheck.sh (scratch worktree of /repo: patch applies, builds, repository tests pass, checks run with VERIF_REPO) and tools/seeddemo.sh (demonstration fails with the change, passes without)',
